@@ -73,6 +73,36 @@ let handle (line : string) : string =
     let r = zl_read d (bytes_of_hex data) in
     Printf.sprintf "G %s %s %d %d %d" (cerr_s r.g_err) (hex_of_bytes r.g_payload) (List.length r.g_left)
       0 (if r.g_at_ctor then 1 else 0)
+  | "O" :: sync :: level :: win :: calls :: ops ->
+    (* oracle run: O <sync> <level> <win4k> <calls> ops...   calls = ';'-separated
+       flush:len:proc:off:ntok0:noff:ntok:tokens   tokens = ','-separated  l<byte> | m<len>.<dist>   ("-" = none) *)
+    let lv = int_of_string level in
+    let z = if lv = 0 then Z0 else if lv > 0 then Zpos (pos_of_int lv) else Zneg (pos_of_int (-lv)) in
+    let parse_tok t =
+      if t.[0] = 'l' then TLit (n_of_int (int_of_string (String.sub t 1 (String.length t - 1))))
+      else match String.split_on_char '.' (String.sub t 1 (String.length t - 1)) with
+        | [a; b] -> TMatch (n_of_int (int_of_string a), n_of_int (int_of_string b))
+        | _ -> failwith "tok" in
+    let parse_call c =
+      match String.split_on_char ':' c with
+      | [fl; len; proc; off; nt0; noff; nt; toks] ->
+        let ts = if toks = "-" then [] else List.map parse_tok (String.split_on_char ',' toks) in
+        { k_flush = (fl = "1"); k_len = n_of_int (int_of_string len); k_proc = n_of_int (int_of_string proc);
+          k_off = n_of_int (int_of_string off); k_ntok0 = n_of_int (int_of_string nt0);
+          k_noff = n_of_int (int_of_string noff); k_new = ts; k_ntok = n_of_int (int_of_string nt) }
+      | _ -> failwith "call" in
+    let answers = if calls = "-" then [] else List.map parse_call (String.split_on_char ';' calls) in
+    let ops = List.filter (fun o -> o <> "") ops in
+    let ops = List.map (fun o ->
+      match o.[0] with
+      | 'w' -> OWrite (bytes_of_hex (let t = String.sub o 1 (String.length o - 1) in if t = "" then "-" else t))
+      | 'f' -> OFlush | 'c' -> OClose | 'r' -> OReset
+      | _ -> failwith "op") ops in
+    let r = orun (sync = "1") z (win = "1") answers ops in
+    let res = String.concat "," (List.map (fun (n, e) -> Printf.sprintf "%d:%d" (int_of_n n) (if e then 1 else 0)) r.o_res) in
+    let dests = String.concat "|" (List.map hex_of_bytes r.o_dests) in
+    Printf.sprintf "O %d %d %d %d %d %s %s" (if r.o_mis then 1 else 0) (if r.o_con then 1 else 0) (int_of_n r.o_ncalls)
+      (int_of_n r.o_left) (if r.o_events_ok then 1 else 0) (if res = "" then "-" else res) dests
   | _ -> "ERR bad request"
 
 let () =
